@@ -96,13 +96,19 @@ def check(ctx) -> None:
             )
     ctx.require(sites >= 5, "only %d reaction-column write sites found after the input check (5 confirmed by hand)" % sites)
     # ---------------------------------------------------------------- G3
+    holders = {}
     for attr, inst in sorted(ctx.balancer.attr_inst.items()):
         for a, v in inst.attrs.items():
             if Val("const", "input-balanced") in v:
-                ok = inst.cls.qualname == "synrbl.postprocess.Validator" and a == "method" and attr.endswith("input_validator")
-                ctx.instance("C04-G3", "Balancer.%s.%s = 'input-balanced'" % (attr, a), "synrbl/balancing.py", ok=ok)
-                if not ok:
-                    ctx.finding("C04-G3", "Balancer.%s:%s" % (attr, a), "synrbl/balancing.py:1", "'input-balanced' is bound to %s.%s" % (attr, a))
+                holders.setdefault(attr, []).append(a)
+    for attr, attrs in sorted(holders.items()):
+        inst = ctx.balancer.attr_inst[attr]
+        ok = inst.cls.qualname == "synrbl.postprocess.Validator" and "method" in attrs and attr.endswith("input_validator")
+        ctx.instance("C04-G3", "Balancer.%s carries 'input-balanced' in %s" % (attr, attrs), "synrbl/balancing.py", ok=ok)
+        if not ok:
+            ctx.finding("C04-G3", "Balancer.%s:%s" % (attr, attrs[0]), "synrbl/balancing.py:1", "'input-balanced' is bound to %s.%s, not (only) to the method of the input validator" % (attr, attrs[0]))
+    if not any(k.endswith("input_validator") for k in holders):
+        ctx.finding("C04-G3", "Balancer.input_validator:method", "synrbl/balancing.py:1", "no validator is bound to the method 'input-balanced'")
     # completion stages come after the input validator
     for st in pl.stages[2:]:
         ctx.instance("C04-G3", "stage %d %s runs after the input check" % (st.index, st.label), st.where(), ok=True, nontrivial=False)
